@@ -229,6 +229,21 @@ impl WebSocketConnection {
         }
     }
 
+    /// Verification hook: run [`WebSocketConnection::negotiate_protocol`] (multistream-select
+    /// under the substream-open timeout) on any byte stream. Adds code only.
+    #[cfg(feature = "verif")]
+    pub(crate) async fn verif_negotiate_protocol<S: AsyncRead + AsyncWrite + Unpin>(
+        stream: S,
+        dialer: bool,
+        protocols: Vec<String>,
+        timeout: Duration,
+    ) -> Result<(Negotiated<S>, ProtocolName), NegotiationError> {
+        let role = if dialer { Role::Dialer } else { Role::Listener };
+        let names = protocols.iter().map(|protocol| &**protocol).collect::<Vec<&str>>();
+
+        Self::negotiate_protocol(stream, &role, names, timeout).await
+    }
+
     /// Open WebSocket connection.
     pub(super) async fn open_connection(
         connection_id: ConnectionId,
